@@ -129,6 +129,14 @@ where
         &self.signature
     }
 
+    /// verification hook: the per-position register values (read only)
+    #[cfg(feature = "verif-hooks")]
+    pub fn verif_registers(&self) -> Vec<f64> {
+        (0..self.m)
+            .map(|k| self.maxvaluetracker.get_value(k))
+            .collect()
+    }
+
     /// reinitialize structure for another hash pass
     pub fn reset(&mut self) {
         self.signature.fill(self.initobj);
